@@ -824,6 +824,8 @@ def write_pam(matrix, matrix_size, out, scale=1, border=None, dark='#000', light
         bg_color += (0,)
         if len(stroke_color) != 4:
             stroke_color += (255,)
+    elif len(stroke_color) == 4 or len(bg_color) == 4:
+        raise ValueError('PAM supports an alpha channel only together with a transparent light color (None)')
     elif colored_stroke or not (_color_is_black(bg_color) or _color_is_white(bg_color)):
         tuple_type = 'RGB'
     is_rgb = tuple_type.startswith('RGB')
